@@ -56,7 +56,9 @@ def abcName (a : Option AbcType) : String :=
 /-- `bf->filename` as the harness makes it: only `esl_msafile_Open` (file, slurped file, mmap) has one -/
 def fileNameOf (ws : List String) : Option Bytes :=
   let src := (arg? ws "src").getD "mem"
-  if src == "file" || src == "allfile" || src == "mmap" then
+  if src == "named" then                  -- `h_msafile_<pid><tail>`: digits hold no '.' and no '/', so `0` stands for the pid
+    some ([104, 95, 109, 115, 97, 102, 105, 108, 101, 95, 48] ++ ((argHex? ws "tail").getD []))
+  else if src == "file" || src == "allfile" || src == "mmap" then
     some ([104, 95, 109, 115, 97, 102, 105, 108, 101, 95, 48, 46] ++ ((arg? ws "sfx").getD "dat").toUTF8.toList)
   else none
 
